@@ -1,30 +1,38 @@
 ----------------------------- MODULE H_Barrier -----------------------------
 (* Level A: ABT_barrier (C08).  Rounds are numbered by the callers.  A caller
    may return from round k only when N callers have entered round k, where N
-   is the barrier's current number of waiters.                               *)
+   is the barrier's number of waiters at that time: the arrival of the N-th
+   caller releases everybody who is inside the round.  The barrier may be
+   reinitialised (and re-entered) while released callers are still leaving.  *)
 EXTENDS Naturals, Integers, FiniteSets
 CONSTANTS Threads, Rounds
 VARIABLES n,         \* number of waiters of the barrier
           entered,   \* entered[k]: callers that have entered round k
-          inside     \* inside[t]: the round t is blocked in, or -1
-hvars == <<n, entered, inside>>
-HInit == n \in 1..Cardinality(Threads) /\ entered = [k \in Rounds |-> {}] /\ inside = [t \in Threads |-> -1]
-Reinit(m) == /\ \A t \in Threads : inside[t] = -1
-             /\ n' = m /\ UNCHANGED <<entered, inside>>
+          inside,    \* inside[t]: the round t is blocked in, or -1
+          released   \* callers whose round is complete and who have not returned yet
+hvars == <<n, entered, inside, released>>
+HInit == n \in 1..Cardinality(Threads) /\ entered = [k \in Rounds |-> {}] /\ inside = [t \in Threads |-> -1] /\ released = {}
+\* nobody may be BLOCKED on the barrier; callers that are already released may still be on their way out
+Reinit(m) == /\ \A t \in Threads : inside[t] = -1 \/ t \in released
+             /\ n' = m /\ UNCHANGED <<entered, inside, released>>
 BarCall(t, k) == /\ inside[t] = -1 /\ t \notin entered[k]
                  /\ Cardinality(entered[k]) < n                  \* discipline: at most n callers per round
                  /\ entered' = [entered EXCEPT ![k] = @ \cup {t}]
                  /\ inside' = [inside EXCEPT ![t] = k]
+                 /\ released' = (IF Cardinality(entered[k]) + 1 = n
+                                 THEN released \cup {t} \cup {x \in Threads : inside[x] = k} ELSE released)
                  /\ UNCHANGED n
 BarRet(t, k) == /\ inside[t] = k
-                /\ Cardinality(entered[k]) = n                   \* nobody is released early
-                /\ inside' = [inside EXCEPT ![t] = -1]
+                /\ t \in released                               \* nobody is released early
+                /\ inside' = [inside EXCEPT ![t] = -1] /\ released' = released \ {t}
                 /\ UNCHANGED <<n, entered>>
 HNext == \/ \E t \in Threads, k \in Rounds : BarCall(t, k) \/ BarRet(t, k)
          \/ \E m \in 1..Cardinality(Threads) : Reinit(m)
 HSpec == HInit /\ [][HNext]_hvars
 \* once the last caller of a round has entered, every caller of that round may leave
-ReleaseEnabled == \A t \in Threads : inside[t] # -1 /\ Cardinality(entered[inside[t]]) = n => ENABLED BarRet(t, inside[t])
+ReleaseEnabled == \A t \in Threads : t \in released => ENABLED BarRet(t, inside[t])
+\* released callers are inside a round; a complete round (under the current n) has released everybody in it
+ReleasedOK == \A t \in released : inside[t] # -1
 \* a caller blocked in a complete round is evidence of a lost release
-StuckInCompleteRound == \E t \in Threads : inside[t] # -1 /\ Cardinality(entered[inside[t]]) = n
+StuckInCompleteRound == released # {}
 =============================================================================
